@@ -1,5 +1,6 @@
 import DL.Model.CFRules
 import DL.Lemmas.CFSound8
+import DL.Lemmas.CFSorted
 
 /-!
 # C10 — no-unreachable never flags a statement that can execute
@@ -72,6 +73,26 @@ positions (`itemsPositions`). -/
 theorem C10_fragment (prog : Program) (hf : itemsInF prog.items = true) (hnd : (itemsPositions prog.items).Nodup) (p : Nat)
     (hp : p ∈ prog.flagged (analyze prog)) : prog.reachable p = false :=
   program_flagged_unreachable prog hf hnd p hp
+
+/-- the hypothesis on positions, characterised: it holds whenever the source positions of the program, listed in source
+order with the one allowed coincidence counted once (`itemsSrcPositions`), are strictly increasing — as they are in the
+dump of a parsed program -/
+theorem C10_sorted (prog : Program) (hf : itemsInF prog.items = true)
+    (hinc : (itemsSrcPositions prog.items).Pairwise (· < ·)) (p : Nat)
+    (hp : p ∈ prog.flagged (analyze prog)) : prog.reachable p = false :=
+  program_flagged_unreachable prog hf (items_nodup_of_increasing prog.items hinc) p hp
+
+/-- `do { if (x) continue; return 1; } while (c);  function f() { return 1; foo(); }`: source positions strictly increase
+(the test of the `do-while` comes after its body, the function scope shares its position with the declaration) -/
+example :
+    let body := Stmt.block 3 (.cons (.ifS 5 (.cons (.expr (.ident "x") .nil) .nil) (.cont 12 none) none)
+      (.cons (.ret 22 (.cons (.expr .other .nil) .nil)) .nil))
+    let fbody : Stmts := .cons (.ret 65 (.cons (.expr .other .nil) .nil)) (.cons (.simple 75 .exprStmt (.cons (.expr .other .nil) .nil)) .nil)
+    let items : List Item := [.stmt (.doWhileS 0 body (.cons (.expr (.ident "c") (.cons (.fnScope 40 .nil) .nil)) .nil) false),
+      .stmt (.simple 50 (.fnDecl "f") (.cons (.fnScope 50 (.cons (.block 63 fbody) .nil)) .nil))]
+    itemsSrcPositions items = [0, 3, 5, 12, 22, 40, 50, 63, 65, 75] ∧ (itemsSrcPositions items).Pairwise (· < ·) ∧
+    itemsPositions items = [0, 40, 3, 5, 12, 22, 50, 63, 65, 75] := by
+  decide
 
 /-- non-vacuity: `while (true) { if (x) { return; } }  foo();` — in the fragment, positions distinct, and `foo()` IS
 flagged (so the hypothesis of `C10_partial` is met by a real flagged statement) -/
@@ -149,6 +170,32 @@ example :
     Program.flagged (prog ss2) (analyze (prog ss2)) = [] ∧ (prog ss2).reachable 40 = true ∧
     Program.flagged (prog ss3) (analyze (prog ss3)) = [40] := by
   decide
+
+/-! ## why `Kid.stmt` and free-standing `Kid.block` stay outside the fragment
+
+Statements nested directly in an expression tree (`with` bodies: `Kid.stmt`; class static blocks: `Kid.block`) are visited
+by the analyzer in the *enclosing* scope: a `return`/`throw` in them ends that scope, and the following statements are
+flagged.  The reference semantics (`CFRef`) does not follow them: `evalCompl` makes the enclosing statement complete
+normally whatever they do (`Kid.mayThrow (.stmt _) = false`, no completions of nested statements), while `Kids.flowReach`
+takes them to be entered.  So *with respect to this reference semantics* the theorem is false for them — the two smallest
+counterexamples below.  In real JavaScript the analyzer is right in both (the statement after `with (o) return;` is
+unreachable): what is too coarse is the reference semantics, not the linter.  Admitting these kids needs a reference
+semantics that sequences the completions of flow kids into `evalCompl` (a change of `CFRef`, not done here).  A search
+over 7 000 programs found no violation when every such nested body can complete normally. -/
+
+-- `with (o) return;  foo();`
+example :
+    let prog : Program := { isModule := false, items := [
+      .stmt (.simple 0 .other (.cons (.expr (.ident "o") .nil) (.cons (.stmt (.ret 9 .nil)) .nil))),
+      .stmt (.simple 20 .exprStmt (.cons (.expr .other .nil) .nil))] }
+    prog.flagged (analyze prog) = [20] ∧ prog.reachable 20 = true := by decide
+
+-- `class A { static { throw e; } }  foo();`
+example :
+    let prog : Program := { isModule := false, items := [
+      .stmt (.simple 0 .decl (.cons (.block 17 (.cons (.throw 19 (.cons (.expr (.ident "e") .nil) .nil)) .nil)) .nil)),
+      .stmt (.simple 40 .exprStmt (.cons (.expr .other .nil) .nil))] }
+    prog.flagged (analyze prog) = [40] ∧ prog.reachable 40 = true := by decide
 
 /-! ## regression examples: the defects found and repaired in /repo, decided on the model -/
 -- `do { if (x) continue; return 1; } while (c); foo();`  (F7): `foo()` at 50 is not flagged
